@@ -77,7 +77,13 @@ import HexVerif.X.Sem
     "the callee leaves the caller's memory alone" clause.  xcmp emits no bounds checks: the
     theorem speaks of defined runs only, and X leaves out-of-range subscripts undefined.
     ARRAY FORMALS are included: an actual is the name of a global array or of an array formal; the
-    word passed is the array's address (`wordOf`), `CallSpec` speaks of values.
+    word passed is the array's address (`VRepOf`), `CallSpec` speaks of values.
+    STRING LITERALS are included as actuals of array formals: the word passed is the word address of
+    the literal's label in the string pool (`LDAC _stringN`; each occurrence has its own label, so
+    the triples of actuals are stated with a predicate on the word, `ExecP`); `Rep.strs` relates the
+    pool to `X.packString` (checked on the image by `strCheck`), a subscript of a formal bound to a
+    literal reads the pool, an assignment to one is an error of X.  Literals as operands are in the
+    fragment too, vacuously (X gives no integer for them).
     GLOBAL CONSTANTS (`val n = e`) are included: `ConstProp`'s table is `G.rho` (= what `X.bindGlobals`
     computes), array lengths may be constants, and a call through a constant `< 3` is the system call
     with that number (`execS_valcall`).
@@ -85,8 +91,9 @@ import HexVerif.X.Sem
     of a call that is a whole right-hand side (`exec_usercallP`: the actuals with calls are evaluated
     first and parked in temporaries, as `genCallActuals` does); (V2 and V3) one call - ANY callee - as
     the first actual next to constants (`putval(rem(w, 256))`, `argsOK_first`).
-  Open: string literals, local `val`s, calls of impure procedures in operands (X leaves the order open only if the other operand
-  is constant), calls inside actuals, `val`/array declarations and formals, subscripts and strings;
+  Open: local `val`s and local arrays, calls of impure procedures in operands (X leaves the order open
+  only if the other operand is constant), a call of an impure callee in another actual than the first,
+  calls inside the actuals of a call that is an operand;
   replacing the reflective checks by a proof that they always succeed.
 -/
 namespace Hex.C01
@@ -177,7 +184,7 @@ theorem IAm_refines_Isa (ds : List Asm.Dir) (img : Asm.Image) (g : IAm.Good ds i
 /-! ### Stage (2): expressions without calls -/
 
 /-- **`C01_stage2_partial`.**  Restriction: `pureE e` (literals, names, `- ~ + - = ~= < <= > >= and
-    or`; no subscripts, strings, calls).  If the reference semantics evaluates `e` to the integer
+    or`, subscripts with such an index, string literals (which have no integer value); no calls).  If the reference semantics evaluates `e` to the integer
     `v`, the code `ExprCodeGen` emits for `OptimiseExpr (ConstProp e)` satisfies the triple
     `ExecA`: located anywhere in the lowered program, started by `IAm` in any machine state that
     represents the source state (`Rep`; the I/O state is the source state's), with its frame need
